@@ -120,6 +120,8 @@ type xexec struct {
 	same  bool // in and out are the same buffer
 	fresh int
 	cfg   kernelCfg
+	// concrete contents for -validate runs
+	concrete map[string][]byte
 }
 
 type kernelCfg struct {
@@ -139,7 +141,16 @@ func main() {
 	out := flag.String("out", "", "result JSON")
 	only := flag.String("func", "", "only this kernel (suffix match)")
 	timeout := flag.Int("timeout-ms", 60000, "per-query timeout")
+	validate := flag.String("validate", "", "write concrete test cases (inputs and the outputs asmsym computes by executing the instruction list concretely) to this file")
+	seed := flag.Int64("seed", 1, "seed for -validate inputs")
 	flag.Parse()
+	if *validate != "" {
+		if err := writeValidationCases(*repo, *validate, *seed); err != nil {
+			fmt.Fprintln(os.Stderr, err)
+			os.Exit(2)
+		}
+		return
+	}
 	res := &result{Labels: map[string]int{}, Functions: map[string]int{}, Mnemonics: map[string]int{}}
 	fns, err := disassemble(*repo)
 	if err != nil {
@@ -185,6 +196,9 @@ func main() {
 			func() {
 				defer func() {
 					if r := recover(); r != nil {
+						if os.Getenv("ASMSYM_DEBUG") != "" {
+							panic(r)
+						}
 						res.Inconclusive = append(res.Inconclusive, fmt.Sprintf("%s: %v", short, r))
 					}
 				}()
@@ -638,6 +652,13 @@ func (e *xexec) canon(r *region) *region {
 
 // orig is the content of a region before the kernel ran.
 func (e *xexec) orig(r *region, off *term.T) *term.T {
+	if e.concrete != nil {
+		buf := e.concrete[e.canon(r).name]
+		if !off.IsConst() || off.Val >= uint64(len(buf)) {
+			panic(fmt.Sprintf("concrete run: access outside %s at %v", r.name, off))
+		}
+		return term.Const(8, uint64(buf[off.Val]))
+	}
 	return term.Select("mem_"+e.canon(r).name, off, 8)
 }
 
@@ -702,6 +723,9 @@ func dest(in instr) string {
 	d := in.args[len(in.args)-1]
 	if strings.Contains(d, "(") {
 		return ""
+	}
+	if full, ok := subRegs[d]; ok {
+		return full
 	}
 	return d
 }
@@ -888,8 +912,20 @@ func isX(s string) bool {
 	return len(s) >= 2 && s[0] == 'X' && s[1] >= '0' && s[1] <= '9'
 }
 
+var subRegs = map[string]string{"AL": "AX", "BL": "BX", "CL": "CX", "DL": "DX", "SIL": "SI", "DIL": "DI", "BPL": "BP", "SPL": "SP",
+	"R8B": "R8", "R9B": "R9", "R10B": "R10", "R11B": "R11", "R12B": "R12", "R13B": "R13", "R14B": "R14", "R15B": "R15"}
+
 func (e *xexec) exec1(st *state, in instr, stack map[int64]val, check bool) {
-	a := in.args
+	a := append([]string(nil), in.args...)
+	for i, x := range a {
+		if full, ok := subRegs[x]; ok {
+			a[i] = full
+		}
+		if x == "AH" || x == "BH" || x == "CH" || x == "DH" {
+			panic("high-byte registers are not supported: " + x)
+		}
+	}
+	in.args = a
 	what := in.line + " " + in.op + " " + strings.Join(a, ", ")
 	gpr := func(name string) val {
 		v, ok := st.g[name]
@@ -1180,6 +1216,255 @@ func (e *xexec) exec1(st *state, in instr, stack map[int64]val, check bool) {
 		}
 		st.x[a[1]] = r
 	default:
+		if e.alu(st, in, gpr) {
+			return
+		}
 		panic("unsupported instruction " + what)
 	}
+}
+
+// alu handles width-suffixed integer instructions not special-cased above
+// (ADD/SUB/INC/DEC/XOR/AND/OR/SHR/SHL/CMP/TEST/NEG/MOV with B, W, L, Q):
+// an 8- or 16-bit operation leaves the upper register bits unchanged, a 32-bit
+// one zero-extends, flags come from the sub-width result.
+func (e *xexec) alu(st *state, in instr, gpr func(string) val) bool {
+	op := in.op
+	if len(op) < 3 {
+		return false
+	}
+	w := map[byte]int{'B': 8, 'W': 16, 'L': 32, 'Q': 64}[op[len(op)-1]]
+	base := op[:len(op)-1]
+	if w == 0 {
+		return false
+	}
+	a := in.args
+	operand := func(s string) *term.T {
+		if imm, ok := parseImm(s); ok {
+			return term.Const(w, imm)
+		}
+		if strings.Contains(s, "(") {
+			panic("memory operand in " + op)
+		}
+		v := gpr(s)
+		if v.r != nil {
+			if w == 64 {
+				return nil
+			}
+			panic("sub-width operation on a pointer register")
+		}
+		return term.Extract(v.t, w-1, 0)
+	}
+	put := func(name string, r *term.T) {
+		old := gpr(name)
+		switch {
+		case w == 64:
+			st.g[name] = val{nil, r}
+		case w == 32:
+			st.g[name] = val{nil, term.ZExt(r, 64)}
+		default:
+			if old.r != nil {
+				panic("sub-width write to a pointer register")
+			}
+			st.g[name] = val{nil, term.Concat(term.Extract(old.t, 63, w), r)}
+		}
+		st.flagA, st.flagB = r, term.Const(w, 0)
+	}
+	switch base {
+	case "ADD", "SUB", "XOR", "AND", "OR":
+		x, y := operand(a[0]), operand(a[1])
+		if x == nil || y == nil {
+			return false
+		}
+		var r *term.T
+		switch base {
+		case "ADD":
+			r = term.Add(y, x)
+		case "SUB":
+			r = term.Sub(y, x)
+		case "XOR":
+			r = term.Xor(y, x)
+		case "AND":
+			r = term.And(y, x)
+		default:
+			r = term.Or(y, x)
+		}
+		put(a[1], r)
+	case "INC", "DEC":
+		y := operand(a[0])
+		if y == nil {
+			return false
+		}
+		if base == "INC" {
+			put(a[0], term.Add(y, term.Const(w, 1)))
+		} else {
+			put(a[0], term.Sub(y, term.Const(w, 1)))
+		}
+	case "NEG":
+		y := operand(a[0])
+		put(a[0], term.Neg(y))
+	case "SHR", "SHL":
+		n, ok := parseImm(a[0])
+		if !ok {
+			return false
+		}
+		y := operand(a[1])
+		if base == "SHR" {
+			put(a[1], term.LShr(y, term.Const(8, n)))
+		} else {
+			put(a[1], term.Shl(y, term.Const(8, n)))
+		}
+		st.flagA, st.flagB = nil, nil
+	case "CMP":
+		x, y := operand(a[0]), operand(a[1])
+		if x == nil || y == nil {
+			return false
+		}
+		st.flagA, st.flagB = x, y
+	case "TEST":
+		x, y := operand(a[0]), operand(a[1])
+		st.flagA, st.flagB = term.And(x, y), term.Const(w, 0)
+	case "MOV":
+		if strings.Contains(a[0], "(") || strings.Contains(a[1], "(") || isX(a[0]) || isX(a[1]) {
+			return false
+		}
+		x := operand(a[0])
+		if x == nil {
+			return false
+		}
+		old := st.flagA
+		oldB := st.flagB
+		put(a[1], x)
+		st.flagA, st.flagB = old, oldB
+	default:
+		return false
+	}
+	return true
+}
+
+// ---------- concrete execution for translator validation ----------
+
+type valCase struct {
+	Kernel int    `json:"kernel"`
+	C      uint16 `json:"c"`
+	In     []byte `json:"in"`
+	Out0   []byte `json:"out0"`
+	Out    []byte `json:"out"`
+}
+
+// runConcrete executes the kernel's instruction list on concrete inputs and
+// returns the final contents of out.
+func runConcrete(f *fn, sig []param, c uint16, in, out0 []byte) ([]byte, error) {
+	e := &xexec{f: f, res: &result{Labels: map[string]int{}, Mnemonics: map[string]int{}}, regs: map[string]*region{}}
+	e.c = term.Const(16, uint64(c))
+	e.concrete = map[string][]byte{"in": in, "out": out0}
+	st := &state{g: map[string]val{}, x: map[string]*xmm{}, writes: map[*region][]write{}, reads: map[*region][][2]*term.T{}, wr: map[*region][][2]*term.T{}}
+	stack := map[int64]val{}
+	off := int64(8)
+	for _, p := range sig {
+		switch {
+		case p.kind == "slice":
+			r := &region{name: p.name, kind: p.name}
+			n := len(in)
+			if p.name == "out" {
+				n = len(out0)
+			}
+			r.size = c64(uint64(n))
+			e.regs[p.name] = r
+			stack[off] = val{r, c64(0)}
+			stack[off+8] = val{nil, c64(uint64(n))}
+			stack[off+16] = val{nil, c64(uint64(n))}
+			off += 24
+		default:
+			r := &region{name: p.name}
+			if p.kind == "ptr:mulTableEntry" {
+				r.kind, r.size = "tab", c64(1024)
+			} else {
+				r.kind, r.size = "tab64", c64(128)
+			}
+			e.regs[p.name] = r
+			stack[off] = val{r, c64(0)}
+			off += 8
+		}
+	}
+	pc := 0
+	for steps := 0; steps < 1000000; steps++ {
+		if pc >= len(f.instrs) {
+			return nil, fmt.Errorf("fell off the end")
+		}
+		in := f.instrs[pc]
+		if in.op == "RET" {
+			res := append([]byte(nil), out0...)
+			for _, w := range st.writes[e.regs["out"]] {
+				if !w.off.IsConst() || !w.b.IsConst() || w.off.Val >= uint64(len(res)) {
+					return nil, fmt.Errorf("non-concrete or out-of-range write")
+				}
+				res[w.off.Val] = byte(w.b.Val)
+			}
+			return res, nil
+		}
+		if isJcc(in.op) {
+			c := e.cond(st, in.op)
+			if !c.IsConst() {
+				return nil, fmt.Errorf("non-concrete branch")
+			}
+			if c.IsTrue() {
+				t, _ := strconv.ParseUint(strings.TrimPrefix(in.args[0], "0x"), 16, 64)
+				pc = f.index[t]
+				continue
+			}
+			pc++
+			continue
+		}
+		e.exec1(st, in, stack, false)
+		pc++
+	}
+	return nil, fmt.Errorf("step limit")
+}
+
+func writeValidationCases(repo, path string, seed int64) (err error) {
+	defer func() {
+		if r := recover(); r != nil {
+			err = fmt.Errorf("concrete execution failed: %v", r)
+		}
+	}()
+	fns, err := disassemble(repo)
+	if err != nil {
+		return err
+	}
+	sigs, err := signatures(filepath.Join(repo, "gf2p16", "slice_amd64.go"))
+	if err != nil {
+		return err
+	}
+	names := []string{"mulByteSliceLEUnsafe", "mulAndAddByteSliceLEUnsafe", "mulSliceSSSE3Unsafe", "mulAndAddSliceSSSE3Unsafe"}
+	x := uint64(seed)*2862933555777941757 + 3037000493
+	rnd := func() byte {
+		x = x*6364136223846793005 + 1442695040888963407
+		return byte(x >> 56)
+	}
+	var cases []valCase
+	for k, n := range names {
+		f := fns["gf2p16."+n]
+		if f == nil {
+			return fmt.Errorf("kernel %s not found", n)
+		}
+		lens := []int{2, 6, 70}
+		if k >= 2 {
+			lens = []int{32, 96, 33}
+		}
+		for _, l := range lens {
+			in := make([]byte, l)
+			out0 := make([]byte, l)
+			for i := range in {
+				in[i], out0[i] = rnd(), rnd()
+			}
+			c := uint16(rnd())<<8 | uint16(rnd())
+			out, err := runConcrete(f, sigs[n], c, in, out0)
+			if err != nil {
+				return fmt.Errorf("%s len %d: %v", n, l, err)
+			}
+			cases = append(cases, valCase{k, c, in, out0, out})
+		}
+	}
+	b, _ := json.MarshalIndent(cases, "", " ")
+	return os.WriteFile(path, b, 0644)
 }
